@@ -136,6 +136,13 @@ func mapRangeVerdict(rg *ssa.Range) (bool, string) {
 		changed = false
 		for b := range blocks {
 			for _, in := range b.Instrs {
+				// data flowing through memory: a store of an iteration-dependent value taints the local it lands in
+				if st, isSt := in.(*ssa.Store); isSt && iter[st.Val] {
+					if a, isA := addrRootAlloc(st.Addr); isA && !iter[a] {
+						iter[a] = true
+						changed = true
+					}
+				}
 				v, ok := in.(ssa.Value)
 				if !ok || iter[v] {
 					continue
@@ -253,6 +260,23 @@ func mapRangeVerdict(rg *ssa.Range) (bool, string) {
 		return true, "keys collected and sorted before use"
 	}
 	return true, "body only inserts into maps / tests membership"
+}
+
+// addrRootAlloc follows field and index addressing down to the local the address points into.
+func addrRootAlloc(v ssa.Value) (*ssa.Alloc, bool) {
+	for i := 0; i < 8; i++ {
+		switch x := v.(type) {
+		case *ssa.Alloc:
+			return x, true
+		case *ssa.FieldAddr:
+			v = x.X
+		case *ssa.IndexAddr:
+			v = x.X
+		default:
+			return nil, false
+		}
+	}
+	return nil, false
 }
 
 func isMakeIface(in ssa.Instruction) bool {
